@@ -78,6 +78,17 @@ def basis_of(seq):
     return b
 
 
+class Stream:
+    """An iterable that is not an iterator and can be read once only (a reader over an open stream): every iter() continues
+    where the last one stopped."""
+    def __init__(self, items):
+        self._it = iter(list(items))
+
+    def __iter__(self):
+        for x in self._it:
+            yield x
+
+
 def build(kind, seq):
     if kind == "list":
         return list(seq)
@@ -110,6 +121,8 @@ def build(kind, seq):
         return {i: p for i, p in enumerate(seq)}.values()
     if kind == "setiter":
         return iter(set(seq))
+    if kind == "stream":
+        return Stream(seq)
     raise ValueError(kind)
 
 
@@ -970,6 +983,15 @@ def record_probes(ctx, memo, rnd, quick, ncount, cold, decisive):
             perms = [Perm(p) for p in B]
             form = ("list", "iterator", "set", "generator", "tuple", "deque")[k]
             ask(head, B, f, lambda: REAL[f](build(form, perms)), form)
+    # -- a reader that can be read once (iterable, not an iterator): finite bases with their monotone elements in every order
+    for B in itertools.permutations([(0, 1, 2), (2, 1, 0), (0, 2, 1)]):
+        for f in FUNS:
+            perms = [Perm(p) for p in B]
+            ask(head, list(B), f, lambda: REAL[f](Stream(perms)), "stream")
+    for B in ([(1, 0), (0, 1, 2, 3)], [(0, 1, 2, 3), (1, 0)], [(0, 1), (3, 2, 1, 0), (1, 0, 2)], [(2, 0, 1), (0, 1)], [(0,), (1, 2, 0)]):
+        perms = [Perm(p) for p in B]
+        ask(head, list(B), "fin", lambda: REAL["fin"](Stream(perms)), "stream")
+        ask(head, list(B), "poly", lambda: REAL["poly"](Stream(perms)), "stream")
     # -- whole symmetry orbits of a structured long permutation, images in shuffled order, functions in rotating order
     # (the other elements: a filler basis of short elements having every type but one, so that the long element
     # often decides the verdict; every third orbit with an arbitrary small filler)
@@ -987,7 +1009,7 @@ def record_probes(ctx, memo, rnd, quick, ncount, cold, decisive):
                 ev["form"] = "orbit"
                 tail.append(ev)
     # -- bases of 6-10 elements with repeated elements, in one-shot and unordered forms
-    forms = ("generator", "iterator", "map", "set", "frozenset", "filter", "chain", "setiter", "dictvalues", "deque", "reversed", "dictkeys")
+    forms = ("generator", "iterator", "map", "set", "frozenset", "filter", "chain", "setiter", "dictvalues", "deque", "reversed", "dictkeys", "stream", "stream")
     for i in range(12 * scale):
         B = [structured(rnd, rnd.choice([3, 4, 4, 5, 5, 6, 7])) if rnd.random() < 0.6 else util.rand_perm(rnd, rnd.choice([3, 4, 5, 6]))
              for _ in range(rnd.randint(6, 10))]
